@@ -252,7 +252,13 @@ DOMNode *DOMAttrMapImpl::setNamedItemNS(DOMNode* arg)
     if (this->readOnly())
         throw DOMException(DOMException::NO_MODIFICATION_ALLOWED_ERR, 0, GetDOMNamedNodeMapMemoryManager);
     if (argImpl->isOwned())
-        throw DOMException(DOMException::INUSE_ATTRIBUTE_ERR,0, GetDOMNamedNodeMapMemoryManager);
+    {
+        if (argImpl->fOwnerNode != fOwnerNode)
+            throw DOMException(DOMException::INUSE_ATTRIBUTE_ERR,0, GetDOMNamedNodeMapMemoryManager);
+
+        // it is one of our attributes: replacing an attribute node by itself has no effect
+        return 0;
+    }
 
     argImpl->fOwnerNode = fOwnerNode;
     argImpl->isOwned(true);
